@@ -58,9 +58,17 @@ func (l *FaultLoader) Load(name string) (stick.Template, error) {
 	l.Names = append(l.Names, name)
 	if l.FailAt > 0 && l.Loads == l.FailAt {
 		if l.BadSource {
-			return (&stick.MemoryLoader{Templates: map[string]string{name: "broken {% if %} {{ "}}).Load(name)
+			// a different kind of syntax error from load to load: each is refused by another part of the parser
+			src := BrokenSources[(l.FailAt+len(name))%len(BrokenSources)]
+			return (&stick.MemoryLoader{Templates: map[string]string{name: src}}).Load(name)
 		}
 		return nil, ErrInjected
 	}
 	return l.Inner.Load(name)
+}
+
+// BrokenSources are templates that do not parse, each for another reason.
+var BrokenSources = []string{
+	"broken {% if %} {{ ", "ok {% for 1 in b %}x{% endfor %} tail", "ok {% for k, 2 in b %}x{% endfor %}", "ok {% for a in b c %}x{% endfor %}", "ok {{ x is 2 }} tail", "ok {{ x is 'lit' }}",
+	"ok {% zork %}", "ok {{ 'unclosed }}", "ok {% block b %}", "ok {{ a @ b }}", "ok {% include %}", "ok {{ 1 + }}", "ok {% extends 'a' %}{% extends 'b' %}", "ok {% set a %}x", "ok {{ a ? b }}", "ok {# unclosed",
 }
